@@ -193,7 +193,7 @@ def run_job(job, exe):
                 res = json.loads(line[7:])
             except Exception:
                 res = None
-    return {"job": job, "rc": rc, "timed_out": timed_out, "result": res, "stderr": err[-20000:],
+    return {"job": job, "rc": rc, "timed_out": timed_out, "result": res, "stderr": err[:12000] + ("\n...\n" + err[-8000:] if len(err) > 12000 else ""),
             "stdout_tail": out[-2000:], "wall": time.time() - t0}
 
 
@@ -295,6 +295,13 @@ def aggregate(results, out=None):
             out.samples.extend(res.get("samples", [])[:2])
         for v in res.get("violations", []):
             out.add_violation(v["prop"], v["key"], v["detail"], v.get("count", 1), job)
+            ent = out.violations[(v["prop"], v["key"])]
+            if "sanitizer_report" not in ent:
+                for marker in ("WARNING: ThreadSanitizer", "ERROR: AddressSanitizer", "runtime error:"):
+                    i = r["stderr"].find(marker)
+                    if i >= 0:
+                        ent["sanitizer_report"] = r["stderr"][i:i + 3500]
+                        break
         for k, v in res.get("observations", {}).items():
             o = out.observations.setdefault(k, {"count": 0, "sample": v.get("sample", "")})
             o["count"] += v.get("count", 0)
@@ -372,6 +379,7 @@ def finish(prop, tier, seed, out, t0, rule, floors, extra_cov=None, assumptions=
         with open(path, "w") as fh:
             json.dump({"checked_property": prop, "violated_property": p, "key": key, "detail": v["detail"],
                        "count": v["count"], "jobs": v["jobs"], "tier": tier, "seed": seed,
+                       "sanitizer_report": v.get("sanitizer_report", ""),
                        "tree_hash": tree_hash()}, fh, indent=1)
         print("VIOLATION property=%s replay=%s" % (p, path))
         print("  key: %s" % key)
